@@ -2,7 +2,8 @@ import TinysetModel.Proofs.Plain
 import TinysetModel.Proofs.Consts
 import TinysetModel.Proofs.Refine
 import TinysetModel.Proofs.CfgInst
-import TinysetModel.Proofs.TotalCfg32
+import TinysetModel.Proofs.Total32Insert
+import TinysetModel.Proofs.TotalOpsRun
 import TinysetModel.Proofs.RemoveTotal
 /-! C02 — SetU32 behaves as an exact mathematical set of u32 under every history.
 The theorems below are about the executable model instantiated at `cfg32`. -/
@@ -153,7 +154,7 @@ example : len (.heap 4 8 2940401507 #[2148532224, 2149580800, 2150629376, 215167
   exact ((List.perm_ext_iff_of_nodup ab.nodup (specRun_nodup demo List.nodup_nil)).2
     (run_refines_u32 detRng 6 demo (by decide) demo_runs).2.2).length_eq
 
-/-! ### returns normally — what is and is not proved for SetU32 -/
+/-! ### returns normally (total correctness) -/
 
 /-- `remove` never fails on a well-formed heap SetU32 -/
 theorem remove_returns_heap_u32 {D : Type} (g : Rng D) (fuel : Nat) {sz cap bits : Nat} {a : Tbl}
@@ -161,16 +162,31 @@ theorem remove_returns_heap_u32 {D : Type} (g : Rng D) (fuel : Nat) {sz cap bits
     ∃ r' b, remove cfg32 g fuel (.heap sz cap bits a) e d = .ok ((r', b), d) ∧ RemOK cfg32 (.heap sz cap bits a) e r' b :=
   remove_heap_total cfg32_ok g fuel wf e he d
 
-/-- For SetU32 the analogue of `C01.insert_returns_and_is_right_u64` with a FIXED small recursion depth is false:
-    because of the "more than 1/16 of the buckets empty" rule, the refill of a regrown table can grow again when the
-    growth draw is small.  Witness (kernel-evaluated): a reachable full 32-bucket table, the constant-0 generator,
-    one more key — depth 2 runs out, depth 3 succeeds.  The recursion is still finite (each level adds at least one
-    bucket); an explicit depth bound for SetU32 is not proved, the correspondence runs the model with fuel 400. -/
-theorem insert_depth2_not_enough_u32 :
-    ¬ (∀ (g : Rng Unit) (r : Rp), WF cfg32 r → ∀ e, e < 2 ^ 32 →
-        capacity r + 32 + 3 ≤ 2 ^ 32 ∧ 3 * len r + 4 + 32 + 3 ≤ 2 ^ 32 →
-        ∀ d, ∃ r' b d', insert cfg32 g 3 r e d = .ok ((r', b), d')) := insert_total_u32_fuel3_false
-theorem insert_depth3_enough_for_witness_u32 : ∃ p, insert cfg32 zeroRng32 4 r32 (2 ^ 20 + 32 * 1024) () = .ok p := r32_fuel4
+/-- EVERY insert into a well-formed SetU32 returns normally — no fuel/room/scan error in the model — for every
+    generator and state, with recursion depth at most 2 (fuel 3; fuel 2 already suffices), and the result is the ideal
+    set's.  This rests on the repaired growth rule: a full table of `cap` buckets is regrown to
+    `cap + 1 + cap / 8 + r % cap` buckets, which leaves more than 1/16 of the new table empty after the refill, so the
+    refill never grows again.  Size hypotheses: capacity and length far below 2^32. -/
+theorem insert_returns_and_is_right_u32 {D : Type} (g : Rng D) {r : Rp} (wf : WF cfg32 r) (e : Nat) (he : e < 2 ^ 32)
+    (hsize : capacity r + 32 + 3 ≤ 2 ^ 32 ∧ 3 * len r + 4 + 32 + 3 ≤ 2 ^ 32) (d : D) :
+    ∃ r' b d', insert cfg32 g 3 r e d = .ok ((r', b), d') ∧ InsOK cfg32 r e r' b :=
+  insert_total_correct_u32 g wf e he hsize d
+
+/-- **C02 in one statement**: for every generator `g` and state `d`, every recursion budget `fuel + 2`, and every history
+    of fewer than 2^28 `insert`/`remove`/`contains`/`len` calls with `u32` arguments on a new set, the model run RETURNS
+    (no fuel / no-room / scan / unreachable error — every call returns normally), every answer is the ideal
+    mathematical set's answer, the final state is well formed and holds exactly the ideal set's members. -/
+theorem every_history_u32 {D : Type} (g : Rng D) (fuel : Nat) (ops : List Op) (hops : ∀ op ∈ ops, op.InRange 32)
+    (hlen : ops.length < 2 ^ 28) (d : D) :
+    ∃ r' outs d', runOps cfg32 g (fuel + 2) .empty ops d = .ok ((r', outs), d') ∧ WF cfg32 r' ∧
+      outs = (specRun [] ops).2 ∧ ∀ x, x ∈ elems cfg32 r' ↔ x ∈ (specRun [] ops).1 :=
+  run_total_u32 g fuel ops hops hlen d
+
+/-- `remove` always returns (also on inline sets, which are rebuilt through `collect`) with the right answer -/
+theorem remove_returns_and_is_right_u32 {D : Type} (g : Rng D) (fuel : Nat) {r : Rp} (wf : WF cfg32 r) (e : Nat)
+    (he : e < 2 ^ 32) (d : D) :
+    ∃ r' b d', remove cfg32 g (fuel + 2) r e d = .ok ((r', b), d') ∧ RemOK cfg32 r e r' b :=
+  remove_total_correct_u32 g fuel wf e he d
 
 end C02
 
@@ -180,3 +196,6 @@ end C02
 #print axioms C02.run_refines_u32
 #print axioms C02.demo_runs
 #print axioms C02.demo_wf
+#print axioms C02.insert_returns_and_is_right_u32
+#print axioms C02.every_history_u32
+#print axioms C02.remove_returns_and_is_right_u32
